@@ -1325,3 +1325,105 @@ func derefT(t types.Type) types.Type {
 	}
 	return types.Unalias(t)
 }
+
+// ruleEvictedResultCounted: with the drop strategy a window whose output buffer is full makes room
+// by taking the oldest result out of its own output channel. That result was counted as sent and is
+// now lost: it must be counted as dropped, or sent - delivered silently diverges (a watermark advance
+// that closes 60 sessions at once delivers 50 and reports droppedCount 0). In the methods of W that
+// send on W.outputChan, every receive from W.outputChan is followed, on every path to the function's
+// exit, by an increment of W.droppedCount.
+func (a *A) ruleEvictedResultCounted(W *types.Named) int {
+	out := a.FieldOf(W, "outputChan")
+	dropped := a.FieldOf(W, "droppedCount")
+	isChan := func(v ssa.Value) bool {
+		t := TermOf(v, nil)
+		return t.Kind == "field" && t.Field == out
+	}
+	isCount := func(in ssa.Instruction) bool {
+		c, ok := in.(*ssa.Call)
+		if !ok {
+			return false
+		}
+		sc := c.Call.StaticCallee()
+		if sc == nil || sc.Pkg == nil || sc.Pkg.Pkg.Path() != "sync/atomic" || !strings.HasPrefix(sc.Name(), "Add") {
+			return false
+		}
+		return fieldAddrIs(c.Call.Args[0], dropped)
+	}
+	n := 0
+	for _, fn := range a.ModFuncs {
+		if fn.Blocks == nil {
+			continue
+		}
+		root := fn
+		for root.Parent() != nil {
+			root = root.Parent()
+		}
+		if r := root.Signature.Recv(); r == nil || !types.Identical(derefT(r.Type()), W) {
+			continue
+		}
+		sends := false
+		allInstrs(fn, func(in ssa.Instruction) {
+			switch x := in.(type) {
+			case *ssa.Send:
+				if isChan(x.Chan) {
+					sends = true
+				}
+			case *ssa.Select:
+				for _, st := range x.States {
+					if st.Dir == types.SendOnly && isChan(st.Chan) {
+						sends = true
+					}
+				}
+			}
+		})
+		if !sends {
+			continue
+		}
+		allInstrs(fn, func(in ssa.Instruction) {
+			sel, ok := in.(*ssa.Select)
+			if !ok {
+				return
+			}
+			for k, st := range sel.States {
+				if st.Dir != types.RecvOnly || !isChan(st.Chan) {
+					continue
+				}
+				n++
+				// the block entered when state k fired
+				var arm *ssa.BasicBlock
+				allInstrs(fn, func(x ssa.Instruction) {
+					iff, ok := x.(*ssa.If)
+					if !ok {
+						return
+					}
+					bo, ok := iff.Cond.(*ssa.BinOp)
+					if !ok || bo.Op != token.EQL {
+						return
+					}
+					ex, ok := bo.X.(*ssa.Extract)
+					if !ok || ex.Tuple != ssa.Value(sel) || ex.Index != 0 {
+						return
+					}
+					if c, ok := bo.Y.(*ssa.Const); ok && c.Value != nil && c.Int64() == int64(k) {
+						arm = iff.Block().Succs[0]
+					}
+				})
+				construct := fmt.Sprintf("%s#evicted-result-counted", fname(fn))
+				if arm == nil {
+					a.Und(construct, sel.Pos(), "the arm of the receive from the output channel was not found")
+					continue
+				}
+				bad := reachableFrom(arm, 0, func(x ssa.Instruction) bool {
+					_, isRet := x.(*ssa.Return)
+					return isRet
+				}, isCount)
+				pos := sel.Pos()
+				a.Check(bad == nil, construct, pos,
+					"the result taken out of the full output buffer to make room is counted as dropped on every path",
+					"a result taken out of the full output buffer to make room (drop-oldest) is not counted in droppedCount on a path to the function's exit: it was counted as sent, is never delivered, and no statistic shows the loss")
+			}
+		})
+	}
+	return n
+}
